@@ -41,4 +41,8 @@ PROPS = {
             "required_probes": ["dag_permutation_drawn", "cycle_in_closure", "cycle_next_to_other_tasks", "skipped_task_in_closure", "expected_error"],
             "assumptions": ["the instrumented dag copy is iteration-order-equivalent to collections@v0.10.0 (differential self-test in setup)",
                             "an undefined dependency of a task outside the requested closure may or may not be an error"]},
+    "C10": {"scenario": "crash", "level": "fault_enumeration", "runs": {"quick": 3000, "thorough": 80000}, "components": COMPONENTS_L2, "canary": 25,
+            "required_probes": ["crash_after_a_completed_task", "explicit_cache_error_after_kill", "legal_skip"],
+            "assumptions": ["a kill leaves every completed system call durable (no power loss)", "in-process a kill is a sentinel panic at a crash point; spok's only deferred calls (logger.Sync, file.Close) write no project state",
+                            "crash points exist wherever the durable state or the set of completed commands changes; commands themselves are atomic at this level"]},
 }
